@@ -352,6 +352,13 @@ class Run:
         name, mis = file_name(info.fmt, namev, self.nop)
         if how == "stream":
             return io.BytesIO(info.blob), (lambda: None), False
+        if how == "samepath":
+            # the caller re-writes one file (e.g. a plotting library saving to the same temp file) and
+            # adds it again: the path is the same, the bytes are not
+            path = os.path.join(self.tmp, "figure.png")
+            with open(path, "wb") as fh:
+                fh.write(info.blob)
+            return path, (lambda: None), info.fmt != "PNG"
         d = os.path.join(self.tmp, "op%d" % self.nop)
         os.makedirs(d)
         path = os.path.join(d, name)
@@ -843,7 +850,7 @@ def strategies():
                     st.sampled_from(IMG.FORMATS).flatmap(img_for),
                     st.sampled_from(IMG.FORMATS).flatmap(img_for),
                     st.fixed_dictionaries({"start": st.integers(0, 3)}))
-    how = st.sampled_from(["path", "stream", "file"])
+    how = st.sampled_from(["path", "stream", "file", "samepath", "samepath"])
     namev = st.integers(0, 4)
     emu = st.one_of(st.sampled_from([1, 2, 7, 12700, 914400, 1000000, 9144000, 51206400]),
                     st.integers(1, 20000000))
